@@ -7,7 +7,7 @@
 use vcore::arith::*;
 use vcore::common::*;
 use engine::{catch, Ctx, Prop, Tier};
-use fpdec::{Decimal, DivRounded, MulRounded, Round, RoundingMode};
+use fpdec::{CheckedDiv, Decimal, DivRounded, MulRounded, Quantize, Round, RoundingMode};
 use oracle::text::{ref_format, Align, Spec};
 use oracle::Mode;
 use proptest::prelude::*;
@@ -25,6 +25,12 @@ pub enum Op {
     Mul { x: D, y: D },
     Div { x: D, y: D },
     Fmt { x: D, prec: u8 },
+    CheckedRound { x: D, n: i8 },
+    Quantize { x: D, q: D },
+    CheckedDiv { x: D, y: D },
+    /// an operation that panics (division by zero / unrepresentable result): the
+    /// thread must keep working with its own mode afterwards
+    Panicking { x: D, kind: u8 },
 }
 
 #[derive(Clone, Debug, Hash, PartialEq, Eq, Serialize, Deserialize)]
@@ -74,6 +80,12 @@ fn arb_op() -> BoxedStrategy<Op> {
             if third { Op::Div { x: D::new(a, 0), y: D::new(3, 0) } } else { Op::Div { x: D::new(a, 0), y: D::new(2_000_000_000_000_000_000, 0) } }
         }),
         3 => (tie_d(), 0u8..=2).prop_map(|(x, prec)| Op::Fmt { x, prec }),
+        1 => (tie_d(), -1i8..=2).prop_map(|(x, n)| Op::CheckedRound { x, n }),
+        2 => (tie_d(), 0u8..4).prop_map(|(x, kind)| Op::Panicking { x, kind }),
+        2 => (tie_d(), prop_oneof![Just(D::new(5, 1)), Just(D::new(1, 0)), Just(D::new(-2, 0)), Just(D::new(25, 2)), Just(D::new(10, 0))]).prop_map(|(x, q)| Op::Quantize { x, q }),
+        1 => (prop_oneof![Just(1i128), Just(3), Just(-1), Just(-3), Just(5), Just(7)], any::<bool>()).prop_map(|(a, third)| {
+            if third { Op::CheckedDiv { x: D::new(a, 0), y: D::new(3, 0) } } else { Op::CheckedDiv { x: D::new(a, 0), y: D::new(2_000_000_000_000_000_000, 0) } }
+        }),
     ]
     .boxed()
 }
@@ -97,6 +109,22 @@ fn worker(rx: Receiver<Cmd>, tx: Sender<String>) {
             Op::MulRounded { x, y, n } => format!("{}", vcore::common::op(|| x.dec().mul_rounded(y.dec(), n))),
             Op::Mul { x, y } => format!("{}", vcore::common::op(|| x.dec() * y.dec())),
             Op::Div { x, y } => format!("{}", vcore::common::op(|| x.dec() / y.dec())),
+            Op::Panicking { x, kind } => {
+                let big = Decimal::MAX;
+                let r = match kind % 4 {
+                    0 => vcore::common::op(|| x.dec() / Decimal::ZERO),
+                    1 => vcore::common::op(|| big + big),
+                    2 => vcore::common::op(|| x.dec().div_rounded(Decimal::ZERO, 2)),
+                    _ => vcore::common::op(|| big.mul_rounded(big, 0)),
+                };
+                match r {
+                    Out::Panic(_) => "panicked".to_string(),
+                    o => format!("{o}"),
+                }
+            }
+            Op::CheckedRound { x, n } => format!("{}", crate::c19::opt_out(|| x.dec().checked_round(n))),
+            Op::Quantize { x, q } => format!("{}", vcore::common::op(|| x.dec().quantize(q.dec()))),
+            Op::CheckedDiv { x, y } => format!("{}", crate::c19::opt_out(|| x.dec().checked_div(y.dec()))),
             Op::Fmt { x, prec } => match catch(|| format!("{:.*}", prec as usize, x.dec())) {
                 Ok(s) => format!("str {s}"),
                 Err(p) => format!("Panic({p})"),
@@ -148,7 +176,19 @@ fn run_in_fresh_process(case: &Case) -> Vec<String> {
     String::from_utf8_lossy(&out.stdout).lines().map(|l| l.to_string()).collect()
 }
 
+pub fn opt_out(f: impl FnOnce() -> Option<Decimal>) -> Out {
+    vcore::common::opt(f)
+}
+
+fn out_matches_any(got: &str, exps: &[Exp], checked: bool) -> bool {
+    exps.iter().any(|e| out_matches_c(got, e, checked))
+}
+
 fn out_matches(got: &str, exp: &Exp) -> bool {
+    out_matches_c(got, exp, false)
+}
+
+fn out_matches_c(got: &str, exp: &Exp, checked: bool) -> bool {
     // parse "Value(c @s)" / "Panic(..)"
     let out = if let Some(r) = got.strip_prefix("Value(") {
         let r = r.trim_end_matches(')');
@@ -156,10 +196,12 @@ fn out_matches(got: &str, exp: &Exp) -> bool {
         let c: i128 = it.next().unwrap().parse().unwrap();
         let s: u8 = it.next().unwrap().parse().unwrap();
         Out::Val(c, s)
+    } else if got == "None" {
+        Out::None
     } else {
         Out::Panic(got.to_string())
     };
-    judge(&out, exp, false).is_ok()
+    judge(&out, exp, checked).is_ok()
 }
 
 impl Prop for C19 {
@@ -168,7 +210,7 @@ impl Prop for C19 {
         "C19"
     }
     fn rule(&self) -> String {
-        "Generated schedules: up to 4 logical threads and a global sequence of up to 40 steps (thread, op) with op in {set_default(mode), default(), round, div_rounded, mul_rounded, * with p+q > 18, / , Display with precision}; threads are real OS threads started lazily at their first step (so they start after others changed their mode) and driven in lock-step by the harness; every schedule is executed in a fresh child process (vcheck c19-exec), so no process-wide state survives from one schedule to the next. \
+        "Generated schedules: up to 4 logical threads and a global sequence of up to 40 steps (thread, op) with op in {set_default(mode), default(), round, checked_round, div_rounded, mul_rounded, quantize, * with p+q > 18, /, checked_div, Display with precision, and operations that panic (division by zero, unrepresentable result) after which the thread must keep working}; threads are real OS threads started lazily at their first step (so they start after others changed their mode) and driven in lock-step by the harness; every schedule is executed in a fresh child process (vcheck c19-exec), so no process-wide state survives from one schedule to the next. \
          Operands are exact ties / near ties so the 8 modes give different answers. Oracle: model map thread -> mode (RoundHalfEven at thread start); every result must equal the exact result under the issuing thread's model mode; default() must return it. \
          Non-trivial: a set_default on one thread is followed by a rounding step on another thread whose model mode differs. Distinct: hash of the schedule."
             .into()
@@ -193,7 +235,7 @@ impl Prop for C19 {
             .boxed()
     }
     fn mandatory_labels(&self, _tier: Tier) -> Vec<&'static str> {
-        vec!["cross-thread", "late-start", "get-after-set", "op:round", "op:div_rounded", "op:mul_rounded", "op:mul", "op:div", "op:fmt", "threads=1", "threads>=3", "mode-sensitive"]
+        vec!["cross-thread", "late-start", "get-after-set", "op:round", "op:div_rounded", "op:mul_rounded", "op:mul", "op:div", "op:fmt", "op:quantize", "op:checked_div", "op:checked_round", "op:panicking", "threads=1", "threads>=3", "mode-sensitive"]
     }
     fn builtin_corpus(&self) -> Vec<Case> {
         let s = |t: u8, op: Op| Step { thread: t, op };
@@ -305,6 +347,46 @@ impl Prop for C19 {
                         }
                     }
                     (out_matches(&got, &e), format!("{e}"))
+                }
+                Op::Panicking { .. } => {
+                    ctx.label("op:panicking");
+                    (got == "panicked", "panicked".into())
+                }
+                Op::CheckedRound { x, n } => {
+                    ctx.label("op:checked_round");
+                    let (e, _) = exp_round((*x).into(), *n, md);
+                    if mode_sensitive(&|m| format!("{}", exp_round((*x).into(), *n, m).0)) {
+                        ctx.label("mode-sensitive");
+                        if others_differ {
+                            ctx.label("cross-thread");
+                            ctx.nontrivial();
+                        }
+                    }
+                    (out_matches_c(&got, &e, true), format!("{e}"))
+                }
+                Op::Quantize { x, q } => {
+                    ctx.label("op:quantize");
+                    let (es, _) = exp_quantize((*x).into(), (*q).into(), md);
+                    if mode_sensitive(&|m| format!("{}", exp_quantize((*x).into(), (*q).into(), m).0[0])) {
+                        ctx.label("mode-sensitive");
+                        if others_differ {
+                            ctx.label("cross-thread");
+                            ctx.nontrivial();
+                        }
+                    }
+                    (out_matches_any(&got, &es, false), format!("{}", es[0]))
+                }
+                Op::CheckedDiv { x, y } => {
+                    ctx.label("op:checked_div");
+                    let (e, _) = exp_div((*x).into(), (*y).into(), md);
+                    if mode_sensitive(&|m| format!("{}", exp_div((*x).into(), (*y).into(), m).0)) {
+                        ctx.label("mode-sensitive");
+                        if others_differ {
+                            ctx.label("cross-thread");
+                            ctx.nontrivial();
+                        }
+                    }
+                    (out_matches_c(&got, &e, true), format!("{e}"))
                 }
                 Op::Fmt { x, prec } => {
                     ctx.label("op:fmt");
